@@ -393,14 +393,18 @@ func (c *cluster) startTicks(i int) {
 			return
 		}
 		c.runProbe(c.nodes[i], gen)
-		c.after(n.Cfg.ProbeInterval, "probe-tick", probeTick)
+		// +1us: under virtual time a probe ends, and a suspicion started by it expires, at exact
+		// multiples of the interval after a tick; a ticker on exactly the same grid would tie with
+		// those timers at every tick (both orders are legal, but the runtime's choice is not ours
+		// to replay). The drift keeps the ticker off that grid.
+		c.after(n.Cfg.ProbeInterval+time.Microsecond, "probe-tick", probeTick)
 	}
 	gossipTick = func() {
 		if !alive() {
 			return
 		}
 		go c.nodes[i].M.VGossip()
-		c.after(n.Cfg.GossipInterval, "gossip-tick", gossipTick)
+		c.after(n.Cfg.GossipInterval+300*time.Nanosecond, "gossip-tick", gossipTick)
 	}
 	pp := n.Cfg.PushPullInterval
 	if c.cfg.PushPull > 0 {
@@ -411,7 +415,7 @@ func (c *cluster) startTicks(i int) {
 			return
 		}
 		go c.nodes[i].M.VPushPull()
-		c.after(pp, "pushpull-tick", ppTick)
+		c.after(pp+1700*time.Nanosecond, "pushpull-tick", ppTick)
 	}
 	c.after(n.Cfg.ProbeInterval+phase, "probe-tick", probeTick)
 	c.after(n.Cfg.GossipInterval+phase+211*time.Microsecond, "gossip-tick", gossipTick)
@@ -552,6 +556,9 @@ func exploreN(rep *Report, bound int, shardIdx *int, runRaw func(prefix []int) n
 			rep.AddExtra("replay_divergences", 1)
 			rep.mu.Lock()
 			rep.Exhaustive = false
+			if len(rep.Notes) < 6 {
+				rep.Notes = append(rep.Notes, fmt.Sprintf("replay divergence: %s; prefix %v; journal %s", x.Msg, prefix, lastJournal))
+			}
 			rep.mu.Unlock()
 			x.Verdict, x.Msg = "", ""
 			return x
